@@ -3,10 +3,11 @@ module verif
 go 1.26.4
 
 require (
+	github.com/anishathalye/porcupine v1.3.0
 	github.com/gopacket/gopacket v1.6.1
 	github.com/scionproto/scion v0.0.0
+	golang.org/x/crypto v0.52.0
 	pgregory.net/rapid v1.3.0
-	github.com/anishathalye/porcupine v1.3.0
 )
 
 require (
@@ -43,7 +44,6 @@ require (
 	go.uber.org/multierr v1.11.0 // indirect
 	go.uber.org/zap v1.27.0 // indirect
 	go4.org/netipx v0.0.0-20231129151722-fdeea329fbba // indirect
-	golang.org/x/crypto v0.52.0 // indirect
 	golang.org/x/exp v0.0.0-20250620022241-b7579e27df2b // indirect
 	golang.org/x/net v0.55.0 // indirect
 	golang.org/x/sync v0.20.0 // indirect
